@@ -144,6 +144,14 @@ pub fn run(case: &Value, ctx: &Ctx) -> Outcome {
             let row: Vec<f64> = case["row"].as_array().unwrap().iter().map(qnum).collect();
             out.nontrivial = Some(format!("{n}->{m}@{k}"));
             out.tag(format!("size:{}", if n <= 170 { "table" } else if n < 1030 { "lngamma" } else { "beyond-f64-binomials" }));
+            // the public function itself, entry by entry (same tolerance as below)
+            match guarded(|| (0..=m).map(|j| sfs_core::utils::hypergeometric_pmf(n as u64, k as u64, m as u64, j as u64)).collect::<Vec<f64>>()) {
+                Ok(pmf) => {
+                    let worst = pmf.iter().zip(&row).map(|(g, w)| if g.is_finite() { ((g - w).abs() - 1e-6 * w.abs()).max(0.0) } else { f64::INFINITY }).fold(0.0, f64::max);
+                    out.check(worst <= 1e-9, || "project/large/pmf".into(), || json!({"n": n, "m": m, "k": k, "worst_abs_excess": worst.to_string()}));
+                }
+                Err(p) => out.fail("project/large/pmf-panic", json!({"n": n, "m": m, "k": k, "panic": p})),
+            }
             let mut e = vec![0.0; n + 1];
             e[k] = 1.0;
             match project(&e, &[n + 1], &[m + 1]) {
